@@ -129,24 +129,81 @@ def rule_unit_dimensions(ctx):
         ctx.report('R20.1', 'units:check_units:order', 'rebound/units.py check_units', 'check_units does not return (length, time, mass)')
     # units_convert_particle applies the converter of the field's dimension with the arguments in the right slots
     fn = funcs['units_convert_particle']
-    for st in fn.body:
-        if isinstance(st, ast.Assign) and isinstance(st.targets[0], ast.Attribute) and isinstance(st.value, ast.Call):
-            fld = st.targets[0].attr
-            conv = st.value.func.id
-            n += 1
-            where = 'rebound/units.py:%d units_convert_particle' % st.lineno
-            if FIELD_CONV.get(fld) != conv:
-                ctx.report('R20.1', 'units:field:' + fld, where, 'p.%s is converted with %s, its dimension needs %s' % (fld, conv, FIELD_CONV.get(fld)))
-            a0 = st.value.args[0]
-            if not (isinstance(a0, ast.Attribute) and a0.attr == fld):
-                ctx.report('R20.1', 'units:field:%s:src' % fld, where, 'p.%s is computed from %s' % (fld, ast.unparse(a0)))
+
+    def sconst(node, env):
+        """value of a string-valued constant expression (loop variable bound in env), else None"""
+        if isinstance(node, ast.Constant) and isinstance(node.value, str):
+            return node.value
+        if isinstance(node, ast.Name) and node.id in env:
+            return env[node.id]
+        if isinstance(node, ast.BinOp) and isinstance(node.op, ast.Add):
+            l, r_ = sconst(node.left, env), sconst(node.right, env)
+            return l + r_ if l is not None and r_ is not None else None
+        if isinstance(node, ast.JoinedStr):
+            out = ''
+            for v in node.values:
+                if isinstance(v, ast.Constant):
+                    out += str(v.value)
+                elif isinstance(v, ast.FormattedValue):
+                    x = sconst(v.value, env)
+                    if x is None:
+                        return None
+                    out += x
+            return out
+        return None
+
+    def field_of(node, env):
+        """(object text, field) designated by p.f or getattr(p, <const>)"""
+        if isinstance(node, ast.Attribute):
+            return ast.unparse(node.value), node.attr
+        if isinstance(node, ast.Call) and isinstance(node.func, ast.Name) and node.func.id == 'getattr' and len(node.args) >= 2:
+            f_ = sconst(node.args[1], env)
+            return (ast.unparse(node.args[0]), f_) if f_ is not None else None
+        return None
+
+    assigns = []      # (field, call node, env, lineno)
+
+    def collect(stmts, env):
+        for st in stmts:
+            if isinstance(st, ast.Assign) and isinstance(st.targets[0], ast.Attribute) and isinstance(st.value, ast.Call):
+                assigns.append((st.targets[0].attr, st.value, env, st.lineno))
+            elif isinstance(st, ast.Expr) and isinstance(st.value, ast.Call) and isinstance(st.value.func, ast.Name) and st.value.func.id == 'setattr' and len(st.value.args) == 3:
+                f_ = sconst(st.value.args[1], env)
+                if f_ is None:
+                    raise AnalysisError('R20.1: setattr with a field name the rule cannot evaluate at rebound/units.py:%d' % st.lineno)
+                if isinstance(st.value.args[2], ast.Call):
+                    assigns.append((f_, st.value.args[2], env, st.lineno))
+            elif isinstance(st, ast.For) and isinstance(st.target, ast.Name):
+                it = st.iter
+                vals = None
+                if isinstance(it, ast.Constant) and isinstance(it.value, str):
+                    vals = list(it.value)
+                elif isinstance(it, (ast.Tuple, ast.List)) and all(isinstance(e_, ast.Constant) and isinstance(e_.value, str) for e_ in it.elts):
+                    vals = [e_.value for e_ in it.elts]
+                if vals is None:
+                    raise AnalysisError('R20.1: loop over a non-constant sequence in units_convert_particle (rebound/units.py:%d)' % st.lineno)
+                for v_ in vals:
+                    collect(st.body, dict(env, **{st.target.id: v_}))
+    collect(fn.body, {})
+    for fld, call, env, lineno in assigns:
+        conv = call.func.id if isinstance(call.func, ast.Name) else ast.unparse(call.func)
+        n += 1
+        where = 'rebound/units.py:%d units_convert_particle' % lineno
+        if FIELD_CONV.get(fld) != conv:
+            ctx.report('R20.1', 'units:field:' + fld, where, 'p.%s is converted with %s, its dimension needs %s' % (fld, conv, FIELD_CONV.get(fld)))
+        src = field_of(call.args[0], env) if call.args else None
+        if not (src and src[1] == fld):
+            ctx.report('R20.1', 'units:field:%s:src' % fld, where, 'p.%s is computed from %s' % (fld, ast.unparse(call.args[0]) if call.args else '?'))
+        if conv in funcs:
             formal = [a.arg for a in funcs[conv].args.args][1:]
-            actual = [ast.unparse(a) for a in st.value.args[1:]]
+            actual = [ast.unparse(a) for a in call.args[1:]]
             if formal != actual:
                 ctx.report('R20.1', 'units:field:%s:args' % fld, where, '%s(%s) is called with %s' % (conv, ', '.join(formal), ', '.join(actual)))
+    done = {fld for fld, call, env, lineno in assigns}
     for fld in FIELD_CONV:
-        if not any(isinstance(st, ast.Assign) and isinstance(st.targets[0], ast.Attribute) and st.targets[0].attr == fld for st in fn.body):
-            ctx.report('R20.1', 'units:field:%s:missing' % fld, 'rebound/units.py units_convert_particle', 'p.%s is not converted' % fld)
+        if fld not in done:
+            ctx.report('R20.1', 'units:field:%s:missing' % fld, 'rebound/units.py units_convert_particle',
+                       'p.%s (dimension handled by %s) is not converted: after a change of units the particle carries this field in the old unit' % (fld, FIELD_CONV[fld]))
     ctx.covered('R20.1', 'unit converters typed as monomials in the unit tables: value * old^d / new^d with d the dimension of the field; convert_G = G_SI M T^2 / L^3; field/converter/argument agreement',
                 n, floor=17, samples=samples)
 
